@@ -67,14 +67,21 @@ fn write_body(
 ) -> Result<()> {
     {
         let mut line_wrapper = LineWriter::<_, U64>::new(writer.by_ref(), LineBreak::Lf);
-        let mut enc = Base64Encoder::new(&mut line_wrapper);
+        {
+            let mut enc = Base64Encoder::new(&mut line_wrapper);
 
-        if let Some(crc_hasher) = crc_hasher {
-            let mut tee = TeeWriter::new(crc_hasher, &mut enc);
-            source.to_writer(&mut tee)?;
-        } else {
-            source.to_writer(&mut enc)?;
+            if let Some(crc_hasher) = crc_hasher {
+                let mut tee = TeeWriter::new(crc_hasher, &mut enc);
+                source.to_writer(&mut tee)?;
+            } else {
+                source.to_writer(&mut enc)?;
+            }
+
+            // write out the final base64 quantum, surfacing errors of the sink
+            enc.finish()?;
         }
+        // write out the last (partial) line, surfacing errors of the sink
+        line_wrapper.finish()?;
     }
 
     Ok(())
@@ -123,6 +130,13 @@ impl<W: std::io::Write> Base64Encoder<W> {
             writer,
             &general_purpose::STANDARD,
         ))
+    }
+
+    /// Writes all remaining buffered data.
+    ///
+    /// If this is not called, the remaining data is written on drop, ignoring any errors.
+    pub(crate) fn finish(&mut self) -> std::io::Result<()> {
+        self.0.finish().map(|_| ())
     }
 }
 impl<W: std::io::Write> std::io::Write for Base64Encoder<W> {
